@@ -20,10 +20,13 @@ PROPS = sorted(f[:-3].upper() for f in os.listdir(f'{V}/rules') if f.startswith(
 def work(job):
     name, pids, patch, props = job
     row = {}
+    why = {}
     for p in props:
         n, k, outcome, info = runner._run_variant((p, '/repo', 'B', name, patch))
         row[p] = {'violation': 1, 'inconclusive': 2, 'silent': 0, 'skipped': 'skip'}[outcome]
-    return name, pids, row
+        if outcome == 'violation':
+            why[p] = info.split(': ')[0]         # 'rule at site'
+    return name, pids, row, why
 
 if __name__ == '__main__':
     args = [a for a in sys.argv[1:] if not a.startswith('--')]
@@ -34,12 +37,16 @@ if __name__ == '__main__':
         if args and not (set(pids) & set(args)) and name not in args: continue
         jobs.append((name, pids, patch, pids if own_only else PROPS))
     res = {}
+    whys = {}
     with ProcessPoolExecutor(16) as ex:
-        for name, pids, row in ex.map(work, jobs):
+        for name, pids, row, why in ex.map(work, jobs):
+            whys[name] = why
             own = ','.join(str(row.get(p, '-')) for p in pids)
             others = [f'{p}:{c}' for p, c in row.items() if p not in pids and c not in (0,)]
-            print(f'{name:8s} own={own} others={",".join(others) or "-"}', flush=True)
+            rules = ' '.join(f'[{p}:{w}]' for p, w in sorted(why.items())) if '--rules' in sys.argv else ''
+            print(f'{name:8s} own={own} others={",".join(others) or "-"} {rules}', flush=True)
             res[name] = row
     if matrix:
         det = {n: sorted(p for p, c in row.items() if c == 1) for n, row in res.items()}
         json.dump(det, open(f'{V}/seeded/DETECTION.json', 'w'), indent=1, sort_keys=True)
+        json.dump(whys, open(f'{V}/seeded/DETECTION_RULES.json', 'w'), indent=1, sort_keys=True)
